@@ -109,6 +109,7 @@ class ContractIndex(object):
         self.classes = {}
         self.spec_names = {}
         self.lib = {}
+        self.lemmas = []
 
     def add(self, c):
         self.by_key[c.key] = c
